@@ -42,7 +42,15 @@ def parseNew (toks : List String) : Cfg :=
     | some bl => bl.map fun b => (b.b, b.l)
     | none => []
   let cfgNat (k : String) (d : Nat) : Nat := ((kv? toks k).bind (·.toNat?)).getD d
-  { c0 with blocks := blocks,
+  -- `badpadhash=1`: the info dictionary records a wrong SHA-1 for every piece that lies entirely inside
+  -- padding files; `badpadhash=2`: for the first such piece only.  (Ignored when a file has length 0.)
+  let badpad := if flens.all (· > 0) then kvNat toks "badpadhash" else 0
+  let padIdx := (List.range n).filter fun i => c0.padOnly i
+  let padHashOK : List Bool :=
+    if badpad = 1 then (List.range n).map fun i => !(padIdx.contains i)
+    else if badpad = 2 then (List.range n).map fun i => !(padIdx.head? = some i)
+    else []
+  { c0 with blocks := blocks, padHashOK := padHashOK,
             stopAfter := kvStr toks "stopafter" = "1",
             maxAccept := cfgNat "cfg.MaxPeerAccept" 20,
             endgame := cfgNat "cfg.EndgameMaxDuplicateDownloads" 20,
@@ -236,7 +244,7 @@ def renderObs (s : St) (verdict : String) (outs : List Out) (impl : List (String
       let implCompleted := ((commaList v).filter fun e => (e.splitOn ":completed:").length ≥ 2)
       if sortStrings implRest = sortStrings anns then v
       else joinOrDash (sortStrings (anns ++ implCompleted))
-    | "disk" => if allTrue s.diskOK && (List.range s.cfg.flens.length).all (fun f => s.cfg.fpads.getD f false || s.fileExists.getD f false) then "ok" else "bad"
+    | "disk" => if (List.range s.n).all (fun i => !(s.bad.any fun b => b.1 = i)) && (List.range s.cfg.flens.length).all (fun f => s.cfg.fpads.getD f false || s.fileExists.getD f false) then "ok" else "bad"
     | _ => v
   let isPeerKey (k : String) : Bool := k.startsWith "p" && (k.drop 1).toString.toNat?.isSome
   -- per-peer control messages
@@ -270,10 +278,19 @@ def oracles (prev s : St) (impl : List (String × String)) (prevDials : Nat := 0
   let implBf := get "bf"
   let bfBits := if implBf = "-" then [] else bitsOf implBf
   -- C01: every piece reported as held has verified content on disk (while only the client writes)
+  -- a padding-only piece whose recorded hash is not the hash of zeroes can never be verified: a bit for it is a
+  -- violation in every state, whatever happened to the files
   let c01a := (List.range bfBits.length).filterMap fun i =>
-    if bfBits.getD i false && !(s.diskOKi i) && !s.tainted &&
+    if bfBits.getD i false && !(s.cfg.padOK i) then
+      some s!"C01 bit-without-verified-data piece={i} recorded-hash-never-matched"
+    else if bfBits.getD i false && !(s.diskOKi i) && !s.tainted &&
        (get "st" = "Downloading" || get "st" = "Seeding" || !(prev.bf.map (·.getD i false)).getD false) then
       some s!"C01 bit-without-verified-data piece={i}" else none
+  -- and a torrent that has such a piece is never complete
+  let unver := (List.range s.n).filter fun i => !(s.cfg.padOK i)
+  let c01e := if s.info && !unver.isEmpty && get "st" = "Seeding" then
+      [s!"C01 seeding-with-piece-never-verified piece={unver.headD 0}", s!"C04 seeding-with-piece-never-verified piece={unver.headD 0}"]
+    else []
   -- the same event read as C04 (status not truthful) and C05 (missing files trusted)
   let c01a := c01a ++ (c01a.map fun v => v.replace "C01 bit-without-verified-data" "C05 bit-for-data-not-on-disk")
                    ++ (c01a.map fun v => v.replace "C01 bit-without-verified-data" "C04 reported-piece-not-on-disk")
@@ -357,7 +374,7 @@ def oracles (prev s : St) (impl : List (String × String)) (prevDials : Nat := 0
   let c10 := c10 ++ (c17.map fun v => v.replace "C17 write-cache-reservations-unbalanced" "C10 write-cache-budget-not-returned")
   -- the same event read as C18 (an IP banned for corrupt data must be on the ban list that admission consults)
   let c18 := c01d.map fun v => v.replace "C01 corrupt-sender-not-banned" "C18 banned-ip-not-recorded"
-  c01a ++ c01b ++ c01c ++ c01d ++ c18 ++ c06 ++ c04 ++ c10 ++ c17 ++ c19 ++ c05 ++ c13
+  c01a ++ c01e ++ c01b ++ c01c ++ c01d ++ c18 ++ c06 ++ c04 ++ c10 ++ c17 ++ c19 ++ c05 ++ c13
 
 /-- C04: after the final phase (restart + honest seed answering every request) the torrent must be
 complete with correct files. -/
@@ -369,7 +386,11 @@ def finalOracle (s : St) (op : String) (impl : List (String × String)) : List S
     -- (a torrent that runs without its acceptor could not take the peer port — another process had it: the harness
     -- cannot attach the final seed then; an environment matter, not a verdict on the program)
     let noAcceptor := (get "st" = "Downloading" || get "st" = "Seeding") && !((commaList (get "workers")).contains "acceptor")
-    (if !complete && !noAcceptor then [s!"C04 restart-does-not-converge st={get "st"} have={get "have"} missing={get "missing"}"] else []) ++
+    -- a torrent with a padding-only piece whose recorded hash is wrong cannot complete (and the peer that is given
+    -- that piece waits for ever: the other pieces need not arrive either)
+    let unver := (List.range s.n).any fun i => !(s.cfg.padOK i)
+    (if unver then (if complete then ["C04 complete-with-piece-never-verified", "C01 complete-with-piece-never-verified"] else [])
+     else if !complete && !noAcceptor then [s!"C04 restart-does-not-converge st={get "st"} have={get "have"} missing={get "missing"}"] else []) ++
     -- bytes changed behind the client's back and never re-verified cannot be known to it
     (if complete && get "disk" ≠ "ok" && !s.tainted then ["C04 complete-but-files-differ"] else [])
   else []
